@@ -71,6 +71,69 @@ theorem event_no_fire {a e : Limits} (hc : LimitsCovered a e) (ev : PeerEvent) (
     simp only [PeerEvent.fires, decide_eq_false_iff_not]
     exact key
 
+/-! ### the proposed repair: a Config recomputed from the advertised parameters covers them -/
+
+theorem cover_config_covers (c : Config) (p : OwnParams) (hidle : 0 < p.maxIdleTimeout) :
+    LimitsCovered (advertised p) (enforced (coverConfig c p) p.activeConnectionIDLimit) := by
+  refine ⟨?_, ?_, ?_, ?_, ?_, ?_, ?_, ?_, ?_⟩
+  · show p.initialMaxData ≤ max c.initialConnectionReceiveWindow p.initialMaxData
+    omega
+  · show p.initialMaxStreamDataBidiLocal ≤ max c.initialStreamReceiveWindow
+      (max p.initialMaxStreamDataBidiLocal (max p.initialMaxStreamDataBidiRemote p.initialMaxStreamDataUni))
+    omega
+  · show p.initialMaxStreamDataBidiRemote ≤ max c.initialStreamReceiveWindow
+      (max p.initialMaxStreamDataBidiLocal (max p.initialMaxStreamDataBidiRemote p.initialMaxStreamDataUni))
+    omega
+  · show p.initialMaxStreamDataUni ≤ max c.initialStreamReceiveWindow
+      (max p.initialMaxStreamDataBidiLocal (max p.initialMaxStreamDataBidiRemote p.initialMaxStreamDataUni))
+    omega
+  · show p.maxBidiStreamNum ≤ max c.maxIncomingStreams p.maxBidiStreamNum
+    omega
+  · show p.maxUniStreamNum ≤ max c.maxIncomingUniStreams p.maxUniStreamNum
+    omega
+  · simp only [advertised, enforced, Protocol.DefaultActiveConnectionIDLimit, Protocol.MaxActiveConnectionIDs]
+    split <;> omega
+  · by_cases hd : p.maxDatagramFrameSize ≤ 0
+    · have e : (advertised p).datagram = 0 := by
+        show (if p.maxDatagramFrameSize ≤ 0 then 0 else min p.maxDatagramFrameSize receivable) = 0
+        rw [if_pos hd]
+      rw [e]
+      show (0 : Int) ≤ if (coverConfig c p).enableDatagrams then Limits.MaxDatagramSize else 0
+      split <;> simp [Limits.MaxDatagramSize]
+    · have e : (advertised p).datagram = min p.maxDatagramFrameSize receivable := by
+        show (if p.maxDatagramFrameSize ≤ 0 then 0 else min p.maxDatagramFrameSize receivable) = _
+        rw [if_neg hd]
+      have en : (coverConfig c p).enableDatagrams = true := by
+        show (c.enableDatagrams || decide (p.maxDatagramFrameSize > 0)) = true
+        have : p.maxDatagramFrameSize > 0 := by omega
+        simp [this]
+      rw [e]
+      show min p.maxDatagramFrameSize receivable ≤ if (coverConfig c p).enableDatagrams then Limits.MaxDatagramSize else 0
+      rw [en]
+      simp only [receivable, Protocol.MaxPacketBufferSize, Limits.MaxDatagramSize, if_true]
+      omega
+  · have h2 : ¬ p.maxIdleTimeout ≤ 0 := by omega
+    have e : (advertised p).idle = p.maxIdleTimeout := by
+      show (if p.maxIdleTimeout ≤ 0 then 0 else p.maxIdleTimeout) = _
+      rw [if_neg h2]
+    rw [e]
+    refine ⟨hidle, ?_⟩
+    show p.maxIdleTimeout ≤ max c.maxIdleTimeout p.maxIdleTimeout
+    omega
+
+/-! ### when every listed id is recognised, the populated record is the full reading of the list -/
+
+theorem populateWith_eq_recordAll (R : List Int) (ps : ParamList) (h : ∀ iv ∈ ps, R.contains iv.1 = true) :
+    populateWith R ps = recordAll ps := by
+  unfold populateWith recordAll
+  generalize ({} : OwnParams) = init
+  induction ps generalizing init with
+  | nil => rfl
+  | cons iv rest ih =>
+    simp only [List.foldl_cons]
+    rw [if_pos (h iv (by simp))]
+    exact ih (fun q hq => h q (by simp [hq])) _
+
 /-! ### the populated Config -/
 
 theorem populated_idle_pos (u : Config) (hv : u.Valid) : 0 < (populateConfig u).maxIdleTimeout := by
